@@ -365,8 +365,8 @@ func c01AggRun(x *mc.Exec, sc c01AggScenario, rep *mc.Report) mc.Verdict {
 	if res.Deadlock || res.StepCap || res.Horizon || !finished {
 		return mc.Verdict{Violation: fmt.Sprintf("%s: execution did not finish (%+v)", sc.name, res), Sig: "C01:agg-stuck", Detail: map[string]any{"scenario": sc.name, "blocked": res.Blocked}}
 	}
-	if res.Leaked > 0 {
-		panic(c01AggInfra(fmt.Sprintf("%d goroutines leaked in scenario %s", res.Leaked, sc.name)))
+	if res.Leaked > 0 && !vsched.NoteLeak(res.Leaked) {
+		panic(c01AggInfra(fmt.Sprintf("too many leaked goroutines (%d more in scenario %s)", res.Leaked, sc.name)))
 	}
 	var obs []string
 	for _, r := range w.reqs {
